@@ -1,0 +1,18 @@
+//go:build verif
+
+// Contracts for role bookkeeping (read as text by /verif's govc; comment-only).
+// From the property (C18): access is granted by the policies of the subject's current roles.
+// The enforcer finds them by walking subject -> role -> policy in the ontology, so a role that
+// was deleted must be gone from the ontology as well.
+
+package role
+
+//@ ignorepkg github.com/synnaxlabs/x/gorp
+//@ ignorepkg github.com/synnaxlabs/x/errors
+//@ # the ontology ID of a role: its type plus the UUID rendered as a string (uninterpreted, deterministic)
+//@ pure func OntologyID(k Key) ontology.ID
+//@ func (w Writer) Delete(ctx context.Context, key Key) (err error)
+//@   pragma opaque_func_values
+//@   pragma abstract OntologyID
+//@   ensures err == nil ==> ontology.SpecResourceDeleted[OntologyID(key)]
+//@   modifies ontology.SpecResourceDeleted
